@@ -34,7 +34,7 @@ UNITS = [
     U("C05.sha256_write", ["C05"], "harness/C05/hash_write.c", "h_write", assumed=ORACLE,
       functions=["secp256k1_sha256_write"], timeout=600, min_obl=1300, unwind=None, replay=False,
       note="no --unwind: all loops of the verified code have literal bounds; a data-dependent loop added to sha256_write makes the unit undecided (timeout), never a violation; stream lemma: len fully symbolic (<= 2^48), bytes symbolic; compression abstracted by the logging oracle"),
-    U("C05.sha256_write_b256", ["C05"], "harness/C05/hash_write.c", "h_write", assumed=ORACLE, defs=["MAXLEN=256"], bounded="len<=256",
+    U("C05.sha256_write_b256", ["C05"], "harness/C05/hash_write.c", "h_write", assumed=ORACLE, defs=["MAXLEN=256", "WRITE_BOUNDED"], bounded="len<=256",
       functions=["secp256k1_sha256_write"], timeout=600, min_obl=1300, unwind=66, replay=False,
       note="same harness with len <= 256 and --unwind 66: stays decidable (and passes) when sha256_write is restructured around a data-dependent loop, e.g. one block per compression call"),
     U("C05.sha256_write_contract", ["C05"], "harness/C05/hash_write.c", "h_write_c", assumed=ORACLE,
